@@ -255,7 +255,7 @@ func faultHappenedAfterExec(tr *hx.Trace, n uint64) bool {
 }
 
 func C14(rep *ev.Reporter, tier string) {
-	bud := NewBudget(50 * time.Second)
+	bud := NewBudget(150 * time.Second)
 	companions := [][2]int{{4, 0}, {0, 1}, {3, 2}, {5, 0}, {4, 3}, {2, 2}, {4, 9}, {14, 9}, {15, 0}}
 	if tier == "thorough" {
 		bud = NewBudget(9 * time.Minute)
